@@ -2,7 +2,7 @@
 // operating system (no simulation): it reports exactly what it received, or plays a small script
 // of writes / sleeps / exit. Built with plain rustc by `./check setup` (no dependencies).
 //
-//   realchild report                      print argv (after "report"), VK_* environment, cwd and
+//   realchild report                      print argv[0], argv (after "report"), VK_* environment, cwd and
 //                                         stdin, hex encoded, one item per line
 //   realchild play <op>...                out:<n>:<kind> err:<n>:<kind> sleep:<ms> exit:<code> drain
 //                                         kinds: a (ascii pattern) m (multi-byte) b (one invalid byte)
@@ -51,6 +51,8 @@ fn main() {
     match mode.as_str() {
         "report" => {
             let mut out = String::new();
+            // the program name exactly as the parent passed it
+            out.push_str(&format!("arg0 {}\n", hex(&os_bytes(&args[0]))));
             for a in &args[2..] {
                 out.push_str(&format!("arg {}\n", hex(&os_bytes(a))));
             }
